@@ -359,17 +359,27 @@ def fullstack_run(kind, ops, cfg, max_acc, answers):
                     results.append('none' if r is None else 'octets:' + H(bytes(r)))
             except nfc.snep.SnepError as e:
                 results.append('sneperror:%d' % e.errno)
+        info['results'] = list(results)      # the transfers are over; what follows is connection release
+        info['log'] = list(srv.app.log)
         sock.close()
         return results
 
+    close_hung = False
     try:
-        results = llcpair.with_limit(client)
+        try:
+            results = llcpair.with_limit(client)
+        except llcpair.Inconclusive:
+            # DataLinkConnection.close() can wait for a DM that the peer's close() has discarded (a race
+            # in nfc.llcp.tco, property C09/C05 territory): the C06 observations are complete by then
+            if len(info.get('results', ())) != len(ops):
+                raise
+            results, close_hung = info['results'], True
     finally:
         closed = link.close()
-    if link.pipe.stuck or not closed:
+    if not close_hung and (link.pipe.stuck or not closed):
         raise llcpair.Inconclusive('link did not shut down')
-    return {'results': results, 'log': list(srv.app.log), 'send_miu': info.get('send_miu'),
-            'recv_miu': info.get('recv_miu'), 'frames': len(link.pipe.frames)}
+    return {'results': results, 'log': info.get('log', list(srv.app.log)), 'send_miu': info.get('send_miu'),
+            'recv_miu': info.get('recv_miu'), 'frames': len(link.pipe.frames), 'close_hung': close_hung}
 
 
 def fmt_item(x):
@@ -958,6 +968,8 @@ def main():
             if obs['log'] == expect['log'] and obs['results'] == expect['results']:
                 break
         ck.count('fullstack-%s-%s' % (kind, tag))
+        if obs.get('close_hung'):
+            ck.count('fullstack-socket-close-hung-after-transfer(tco close race, not a C06 matter)')
         ck.case(('fs', kind, tuple(ops), tuple(sorted(cfg.items())), max_acc), obs['frames'] > 12,
                 {'kind': 'fullstack ' + kind, 'tag': tag, 'cfg': cfg, 'sizes': [len(o[1]) for o in ops],
                  'pdus': obs['frames'], 'send_miu': obs['send_miu']})
